@@ -32,6 +32,18 @@ def corpus():
     progs.append(("ctl-chars", '10 PRINT "PAGE\x0cBREAK"\n20 A$="X\x1cY":B$="\x85\x0b\x1d\x1e"\n30 REM \x0c \x85 \x1c\n40 DATA A\x0bB,"C\x0cD"\n50 GOTO 10\n'))
     progs.append(("big-line", '10 PRINT "A"\n20 GOTO 10\n40000 PRINT "B"\n'))
     progs.append(("big-line-ref", '10 PRINT "A"\n20 GOTO 32699\n32699 PRINT "B"\n'))
+    # statement templates with the operand shapes that make the tool hoist calls / allocate temporaries (every option must still
+    # change only its own aspect when the statement is not a plain one)
+    from vf.gen import spaces
+    num = dict(K.NUM_SHAPES)
+    strs = dict(K.STR_SHAPES)
+    for name, body, after in K.TEMPLATES:
+        sl = K.slots(body)
+        if not sl:
+            continue
+        for kn, ks in (("conv", "conv"), ("two_conv", "inkey"), ("conv_elem", "conv_in_builtin")):
+            filled = K.fill(body, [num[kn] if x == "n" else strs[ks] for x in sl])
+            progs.append((f"tpl:{name}:{kn}/{ks}", K.template_program(filled, after)))
     progs.append(("mix6", '10 X=1\n20 IF X=1 THEN X=2:GOTO 40\n30 X=3\n40 PRINT X\n'))
     return progs
 
